@@ -675,3 +675,244 @@ Proof.
   split; [exact tape_gradient_is_a_G|]. split; [exact example_covered|].
   intros x y. split; [apply example_smooth|apply example_den].
 Qed.
+
+From Compute Require Import Model.LMTape Proofs.C10_lm_tape.
+
+(** ** LM's JACOBIAN IS THE TRUE JACOBIAN (proofs in Proofs/C10_lm_tape.v; model in Model/LMTape.v)
+
+    [Model/LMTape.v] is how [optimize/lm.rs] obtains its residuals and Jacobian rows from the [reverse] tape (the same
+    terms run on binary64 in Corr/C10.v): [e] is the model function f(params, [[x]]) as a tape program, the data are
+    the abscissae [xs] and observations [ys]; ONE tape is shared by all the data points and keeps growing (each point's
+    evaluation, the node of [y - val], on accepted steps the [x + d] nodes - the new parameters are NON-leaf nodes - and
+    the trial evaluations), and every row is read off by a sweep over the whole tape. *)
+
+(** the objects (pinned by unfolding): smoothness for every abscissa, the residuals y_i - f(ps, x_i), THE Jacobian of
+    the model function (Coquelicot's [Derive] along each coordinate; the Jacobian of the residuals is its opposite and
+    J^T J is the same), "no column vanishes", the sublevel set of a start point *)
+Theorem C10_lm_tape_defs_unfold :
+  (forall (e : expr R) (xs ps : list R),
+     smooth_on e xs ps <-> forall x, In x xs -> smooth_at e ((x :: nil) :: nil) ps []) /\
+  (forall (e : expr R) (xs ys ps : list R),
+     model_residuals e xs ys ps = map (fun xy => (snd xy - den e ((fst xy :: nil) :: nil) ps [])%R) (combine xs ys)) /\
+  (forall (e : expr R) (xs ps : list R),
+     model_jacobian e xs ps =
+     map (fun x => map (fun j => Derive (fun t => den e ((x :: nil) :: nil) (upd ps j t) []) (nth j ps 0%R)) (seq 0 (length ps))) xs) /\
+  (forall (e : expr R) (xs ps : list R),
+     jacobian_cols_nonzero e xs ps <->
+     forall j, j < length ps ->
+       exists i, i < length xs /\ Derive (fun t => den e ((nth i xs 0%R :: nil) :: nil) (upd ps j t) []) (nth j ps 0%R) <> 0%R) /\
+  (forall (e : expr R) (xs ps : list R) (J : list (list R)),
+     true_jacobian e xs ps J <->
+     length J = length xs /\ forall i, i < length xs -> true_grad e ((nth i xs 0%R :: nil) :: nil) ps (nth i J [])) /\
+  (forall (resid : list R -> option (list R)) (ps0 r0 ps : list R),
+     sublevel resid ps0 r0 ps <->
+     length ps = length ps0 /\ exists r, resid ps = Some r /\ (dot_raw RO r r <= dot_raw RO r0 r0)%R).
+Proof. repeat (split; [intros; reflexivity|]). intros; reflexivity. Qed.
+
+(** THE THEOREM: for every covered model program (every node kind except [f64 / Var]), every set of abscissae and
+    every parameter vector at which the model function is differentiable in the usual sense for each abscissa, BOTH
+    Jacobian functions of the LM model (start of [optimize]: leaf parameters, shared tape with the [y - val] nodes;
+    accepted step: [x + d] nodes on top of the leaves and the trial evaluations) return [model_jacobian]: one row per
+    data point, of the parameters' length, whose entry (i, j) is the partial derivative of params |-> f(params, x_i)
+    along coordinate j ([is_derive]); equivalently minus the partial derivative of the residual y - f(params, x_i) *)
+Theorem C10_lm_jacobian_is_true_jacobian :
+  forall (e : expr R) (xs ps : list R),
+    covered e -> smooth_on e xs ps ->
+    lm_jac0 RO e xs ps = Some (model_jacobian e xs ps) /\
+    lm_jac1 RO e xs ps = Some (model_jacobian e xs ps) /\
+    length (model_jacobian e xs ps) = length xs /\
+    forall i, i < length xs ->
+      length (nth i (model_jacobian e xs ps) []) = length ps /\
+      forall j, j < length ps ->
+        is_derive (fun t : R => den e ((nth i xs 0%R :: nil) :: nil) (upd ps j t) []) (nth j ps 0%R)
+                  (nth j (nth i (model_jacobian e xs ps) []) 0%R) /\
+        forall y : R, is_derive (fun t : R => (y - den e ((nth i xs 0%R :: nil) :: nil) (upd ps j t) [])%R) (nth j ps 0%R)
+                                (- nth j (nth i (model_jacobian e xs ps) []) 0%R)%R.
+Proof. exact lm_jacobian_is_true_jacobian. Qed.
+
+(** ... and the residual function returns the residuals of the denotation *)
+Theorem C10_lm_residuals_are_model_residuals :
+  forall (e : expr R) (xs ys ps : list R),
+    covered e -> smooth_on e xs ps ->
+    lm_resid RO e xs ys ps = Some (model_residuals e xs ys ps).
+Proof. intros e xs ys ps Hc Hs. exact (lm_resid_true e xs Hc ys ps Hs). Qed.
+
+(** without any smoothness: whenever [eval] returns, the value is the denotation (on the reals every operation is
+    total), so whenever the residual function returns it returns the residuals of the denotation *)
+Theorem C10_lm_residuals_value :
+  forall (e : expr R) (xs ys ps r : list R),
+    covered e -> lm_resid RO e xs ys ps = Some r -> r = model_residuals e xs ys ps.
+Proof. exact lm_resid_value. Qed.
+
+(** the general fact behind it: on ANY well-formed tape on which the parameter nodes [pv] carry the values [xs] and have
+    unit tangents (tangent of node j with respect to node i = delta_ij: leaves, or the [x + d] nodes), evaluation of a
+    covered program at a smooth point returns the denotation, and WHATEVER is pushed on the tape afterwards
+    ([text tp' tp'']: tp'' is a well-formed extension of tp'), [val.grad().wrt(&params)] is the gradient *)
+Theorem C10_tape_row_on_shared_tape :
+  forall (data : list (list R)) (e : expr R) (pv : list (@var R)) (xs : list R) (tp : @tape R),
+    covered e -> tape_wf tp ->
+    (length pv = length xs /\
+     forall j v, nth_error pv j = Some v ->
+       snd v < length (nodes tp) /\ fst v = nth j xs 0%R /\
+       forall i u, nth_error pv i = Some u -> tanf (nodes tp) (snd u) (snd v) = if j =? i then 1%R else 0%R) ->
+    smooth_at e data xs [] ->
+    exists r tp', eval RO e pv [] data tp = Some (r, tp') /\
+      (tape_wf tp' /\ exists new, nodes tp' = new ++ nodes tp) /\
+      fst r = den e data xs [] /\ snd r < tlen tp' /\
+      forall tp'', (tape_wf tp'' /\ exists new, nodes tp'' = new ++ nodes tp') ->
+        true_grad e data xs (wrt RO (grad RO tp'' r) pv).
+Proof. exact eval_row. Qed.
+
+(** THE COVARIANCE with the true Jacobian, run-local form: for every covered model program, data, hyper-parameters,
+    step budget and start, if LM (inner solves = C01's LU models, nothing assumed about them) returns (popt, cov),
+    the damped normal matrix had a left inverse along the run (the data condition of the composed theorems) and the
+    model function is smooth at the RETURNED point, then cov = rss/(n-p) * ji where ji is what C01's [Matrix::inv]
+    returns on G = J^T J (THE inverse whenever G has a left inverse), J = [model_jacobian] the TRUE Jacobian at popt
+    (G_ab = sum_i dF_i/dp_a dF_i/dp_b), rss the sum of squares of the true residuals y_i - f(popt, x_i) *)
+Theorem C10_lm_covariance_true_jacobian :
+  forall (e : expr R) (xs ys : list R), covered e ->
+  forall (h : lm_hp (T:=R)) (maxsteps : nat) (ps0 popt cov : list R),
+    (forall st0, lm_init RO (lm_resid RO e xs ys) (lm_jac0 RO e xs) h ps0 = Some st0 ->
+                 damped_nonsingular_along (lm_resid RO e xs ys) (lm_jac1 RO e xs) h maxsteps st0) ->
+    lm RO (lm_resid RO e xs ys) (lm_jac0 RO e xs) (lm_jac1 RO e xs)
+       (mat_solve_vec RO) (fun m => option_map (@dat R) (mat_inv RO m)) h maxsteps ps0 = Some (popt, cov) ->
+    smooth_on e xs popt ->
+    let J := model_jacobian e xs popt in
+    let r := model_residuals e xs ys popt in
+    exists G g ji,
+      length popt = length ps0 /\ true_jacobian e xs popt J /\
+      normal_eqs RO J (length popt) r = Some (G, g) /\
+      (nr G = length popt /\ nc G = length popt /\
+       forall a b, a < length popt -> b < length popt ->
+         entry G a b = rsum (fun i => nth a (nth i J []) 0 * nth b (nth i J []) 0)%R (length xs)) /\
+      option_map (@dat R) (mat_inv RO G) = Some ji /\ length popt <= length r /\
+      cov = map (Rmult (dot_raw RO r r / IZR (Z.of_nat (length r - length popt)))) ji /\
+      (Spec.Solve.nonsingular (dat G) (nr G) -> Spec.Solve.is_right_inverse (dat G) (nr G) ji).
+Proof. intros e xs ys Hc h. exact (lm_tape_covariance_true_jacobian e xs ys Hc h). Qed.
+
+(** ** the run stays in the SUBLEVEL SET of its start point (any residual / Jacobian functions): the hypothesis "no
+    zero column in any Jacobian returned" of the unconditional theorems is needed only at points of the start's
+    dimension whose residual sum of squares is at most the start's (accepted steps strictly decrease it) *)
+Theorem C10_damped_nonsingular_along_sublevel :
+  forall (resid : list R -> option (list R)) (jac0 jac1 : list R -> option (list (list R))) (h : lm_hp (T:=R))
+         (ps0 r0 : list R),
+    resid ps0 = Some r0 ->
+    (forall ps J, sublevel resid ps0 r0 ps -> jac0 ps = Some J \/ jac1 ps = Some J ->
+       (forall row, In row J -> length row = length ps) /\
+       (forall i, i < length ps -> exists row, In row J /\ nth i row 0%R <> 0%R)) ->
+    forall (maxsteps : nat) (st0 : lm_state (T:=R)),
+    (0 < l_tau h)%R -> lm_init RO resid jac0 h ps0 = Some st0 ->
+    damped_nonsingular_along resid jac1 h maxsteps st0.
+Proof. exact damped_nonsingular_along_sublevel. Qed.
+
+Theorem C10_lm_result_sublevel :
+  forall (resid : list R -> option (list R)) (jac0 jac1 : list R -> option (list (list R))) (h : lm_hp (T:=R))
+         (ps0 r0 : list R),
+    resid ps0 = Some r0 ->
+    (forall ps J, sublevel resid ps0 r0 ps -> jac0 ps = Some J \/ jac1 ps = Some J ->
+       (forall row, In row J -> length row = length ps) /\
+       (forall i, i < length ps -> exists row, In row J /\ nth i row 0%R <> 0%R)) ->
+    forall (maxsteps : nat) (popt cov : list R),
+    (0 < l_tau h)%R ->
+    lm RO resid jac0 jac1 (mat_solve_vec RO) (fun m => option_map (@dat R) (mat_inv RO m)) h maxsteps ps0 = Some (popt, cov) ->
+    exists r J G g ji,
+      length popt = length ps0 /\ resid popt = Some r /\ (dot_raw RO r r <= dot_raw RO r0 r0)%R /\
+      (jac0 popt = Some J \/ jac1 popt = Some J) /\
+      normal_eqs RO J (length popt) r = Some (G, g) /\
+      option_map (@dat R) (mat_inv RO G) = Some ji /\ length popt <= length r /\
+      cov = map (Rmult (dot_raw RO r r / IZR (Z.of_nat (length r - length popt)))) ji /\
+      (Spec.Solve.nonsingular (dat G) (nr G) -> Spec.Solve.is_right_inverse (dat G) (nr G) ji).
+Proof. exact lm_result_sublevel. Qed.
+
+(** THE COVARIANCE with the true Jacobian, UNCONDITIONAL form: hypotheses on the PROBLEM only - tau > 0, and at every
+    parameter vector of the start's dimension whose TRUE residual sum of squares is at most the start's (the sublevel
+    set, a statement about the denotation only) the model function is smooth for every abscissa and no column of
+    the TRUE Jacobian vanishes (whenever the residual function returns, it returns the residuals of the denotation,
+    smooth point or not: C10_lm_residuals_value).  Then the data
+    condition holds for every step budget, LM never returns a larger residual sum of squares than the start, and
+    the covariance is rss/(n-p) (J^T J)^-1 with J the true Jacobian at the returned point.  The hypothesis "every
+    Jacobian returned ..." of C10_lm_never_worse_unconditional / C10_lm_result_unconditional is discharged *)
+Theorem C10_lm_tape_data_condition_holds :
+  forall (e : expr R) (xs ys : list R), covered e ->
+  forall (h : lm_hp (T:=R)) (ps0 : list R),
+    (0 < l_tau h)%R ->
+    (forall ps, length ps = length ps0 ->
+       (dot_raw RO (model_residuals e xs ys ps) (model_residuals e xs ys ps)
+        <= dot_raw RO (model_residuals e xs ys ps0) (model_residuals e xs ys ps0))%R ->
+       smooth_on e xs ps /\ jacobian_cols_nonzero e xs ps) ->
+    forall (maxsteps : nat) (st0 : lm_state (T:=R)),
+    lm_init RO (lm_resid RO e xs ys) (lm_jac0 RO e xs) h ps0 = Some st0 ->
+    damped_nonsingular_along (lm_resid RO e xs ys) (lm_jac1 RO e xs) h maxsteps st0.
+Proof.
+  intros e xs ys Hc h ps0 Htau Hyp.
+  exact (lm_tape_damped_nonsingular_along e xs ys Hc h ps0 Htau (fun ps L Hle => proj1 (Hyp ps L Hle)) (fun ps L Hle => proj2 (Hyp ps L Hle))).
+Qed.
+
+Theorem C10_lm_covariance_true_jacobian_unconditional :
+  forall (e : expr R) (xs ys : list R), covered e ->
+  forall (h : lm_hp (T:=R)) (ps0 : list R),
+    (0 < l_tau h)%R ->
+    (forall ps, length ps = length ps0 ->
+       (dot_raw RO (model_residuals e xs ys ps) (model_residuals e xs ys ps)
+        <= dot_raw RO (model_residuals e xs ys ps0) (model_residuals e xs ys ps0))%R ->
+       smooth_on e xs ps /\ jacobian_cols_nonzero e xs ps) ->
+    forall (maxsteps : nat) (popt cov : list R),
+    lm RO (lm_resid RO e xs ys) (lm_jac0 RO e xs) (lm_jac1 RO e xs)
+       (mat_solve_vec RO) (fun m => option_map (@dat R) (mat_inv RO m)) h maxsteps ps0 = Some (popt, cov) ->
+    let J := model_jacobian e xs popt in
+    let r := model_residuals e xs ys popt in
+    (dot_raw RO r r <= dot_raw RO (model_residuals e xs ys ps0) (model_residuals e xs ys ps0))%R /\
+    exists G g ji,
+      length popt = length ps0 /\ true_jacobian e xs popt J /\
+      normal_eqs RO J (length popt) r = Some (G, g) /\
+      (nr G = length popt /\ nc G = length popt /\
+       forall a b, a < length popt -> b < length popt ->
+         entry G a b = rsum (fun i => nth a (nth i J []) 0 * nth b (nth i J []) 0)%R (length xs)) /\
+      option_map (@dat R) (mat_inv RO G) = Some ji /\ length popt <= length r /\
+      cov = map (Rmult (dot_raw RO r r / IZR (Z.of_nat (length r - length popt)))) ji /\
+      (Spec.Solve.nonsingular (dat G) (nr G) -> Spec.Solve.is_right_inverse (dat G) (nr G) ji).
+Proof.
+  intros e xs ys Hc h ps0 Htau Hyp.
+  exact (lm_tape_unconditional e xs ys Hc h ps0 Htau (fun ps L Hle => proj1 (Hyp ps L Hle)) (fun ps L Hle => proj2 (Hyp ps L Hle))).
+Qed.
+
+(** Example, the two-parameter exponential model f((a, b), x) = a * exp(b * x): covered, smooth on R^2 for every
+    abscissa, true Jacobian row (exp(b x), a x exp(b x)); with the data (0, 1), (1, 2), (2, 4) and the start (1, 0)
+    (rss 10) the hypotheses of the unconditional theorem hold - on the sublevel set a <> 0, because the rss at a = 0 is
+    21, although the column of b DOES vanish at a = 0 (so the hypothesis of C10_lm_result_unconditional, which
+    quantifies over every point, fails for this model and the sublevel form is the applicable one) - and its
+    conclusion reads *)
+Theorem C10_lm_exponential_model_example :
+  let e := EMul (EPar 0) (EFn UExp (EMulC (EPar 1) (CDat 0 0))) in
+  let xs := [0; 1; 2]%R in let ys := [1; 2; 4]%R in let p0 := [1; 0]%R in
+  (covered e /\
+   (forall (x : R) (ps : list R), den e ((x :: nil) :: nil) ps [] = (nth 0 ps 0 * exp (nth 1 ps 0 * x))%R) /\
+   (forall xs' ps, length ps = 2 -> smooth_on e xs' ps) /\
+   (forall (xs' : list R) (a b : R),
+      model_jacobian e xs' [a; b] = map (fun x => [exp (b * x); a * (x * exp (b * x))]%R) xs')) /\
+  (forall ps, length ps = 2 ->
+     (dot_raw RO (model_residuals e xs ys ps) (model_residuals e xs ys ps)
+      <= dot_raw RO (model_residuals e xs ys p0) (model_residuals e xs ys p0))%R ->
+     jacobian_cols_nonzero e xs ps) /\
+  ~ jacobian_cols_nonzero e xs [0; 0]%R /\
+  (forall (h : lm_hp (T:=R)) (maxsteps : nat) (popt cov : list R),
+     (0 < l_tau h)%R ->
+     lm RO (lm_resid RO e xs ys) (lm_jac0 RO e xs) (lm_jac1 RO e xs)
+        (mat_solve_vec RO) (fun m => option_map (@dat R) (mat_inv RO m)) h maxsteps p0 = Some (popt, cov) ->
+     exists a b, popt = [a; b] /\
+       (dot_raw RO (model_residuals e xs ys popt) (model_residuals e xs ys popt) <= 10)%R /\
+       model_jacobian e xs popt
+         = [[exp (b * 0); a * (0 * exp (b * 0))]; [exp (b * 1); a * (1 * exp (b * 1))];
+            [exp (b * 2); a * (2 * exp (b * 2))]]%R /\
+       exists G g ji,
+         normal_eqs RO (model_jacobian e xs popt) 2 (model_residuals e xs ys popt) = Some (G, g) /\
+         option_map (@dat R) (mat_inv RO G) = Some ji /\
+         cov = map (Rmult (dot_raw RO (model_residuals e xs ys popt) (model_residuals e xs ys popt)
+                           / IZR (Z.of_nat (3 - 2)))) ji).
+Proof.
+  cbv zeta. split; [|split; [|split]].
+  - split; [exact exp_model_covered|]. split; [exact exp_model_den|]. split; [exact exp_model_smooth|exact exp_model_jacobian].
+  - exact exp_example_cols.
+  - exact exp_example_col_vanishes.
+  - exact lm_exponential_example.
+Qed.
